@@ -389,3 +389,71 @@ def c06(prop, tier, seed):
                      "pthread primitives behave as specified (virtualised by the scheduler); memory-level races are observed by TSan only in the real-thread stress",
                      "ASan/UBSan + allocator ledger attached to every schedule"]
     return R.finish()
+
+
+# ------------------------------------------------------------------------------------------
+# Core (C01 C02 C03 C04 C07 C08 C15 C19 ...)
+
+def _fn(v):
+    """TLA function value printed as record [A |-> ..] / (k :> v @@ ..) / tuple -> dict or list"""
+    if isinstance(v, dict) and "__fn__" in v:
+        return v["__fn__"]
+    return v
+
+
+def core_canon(mods, maxpay):
+    def evs(ms):
+        out = []
+        for x in ms:
+            out.append("%d/%s/%s/%d" % (x["p"], x["from"], x["topic"], 1 if x["sys"] else 0))
+        return ";".join(out) if out else "_"
+
+    def canon(st):
+        S = st["S"]
+        ctx = S["ctx"]
+        mod = _fn(S["mod"])
+        nreg = sum(1 for m in mods if mod[m]["reg"])
+        if ctx["st"] == "none":
+            parts = ["ctx:none,0,0,0"]
+        else:
+            parts = ["ctx:%s,%d,%d,%d" % (ctx["st"], nreg, S["run"], 1 if ctx["quit"] else 0)]
+        for m in mods:
+            parts.append("%s:%s:%d" % (m, mod[m]["st"], len(mod[m]["pipe"])))
+        pay = S["pay"]
+        pay = pay if isinstance(pay, list) else [_fn(pay)[k] for k in sorted(_fn(pay))]
+        parts.append("pay:" + "".join({"unused": "u", "live": "l", "freed": "f"}[x["st"]] for x in pay))
+        stack = S["stack"]
+        depth = sum(1 for f in stack if f["k"] == "cb")
+        parts.append("d%d" % depth)
+        if stack and stack[0]["k"] == "cb":
+            f = stack[0]
+            parts.append("cb:%s:%s:%s" % (f["m"], f["a"], evs(f["ev"])))
+        else:
+            parts.append("-")
+        return str(S["ret"]), "|".join(parts)
+    return canon
+
+
+CORE_WRAPS = ["-Wl,--wrap=epoll_wait,--wrap=write,--wrap=pipe,--wrap=close,--wrap=epoll_create1"]
+
+
+def build_core():
+    return vplib.build("drv_core", ["utils", "mem", "structs", "thpool", "core"], ["drv_core.c"], extra_ldflags=CORE_WRAPS)
+
+
+def core_run(R, exe, cfg, mods, env, D, budget, walks, L, seed, maxpay=1, workers=4, timeout=2400):
+    tag = cfg.replace(".cfg", "")
+    e = {"VP_MODS": ",".join(mods), "VP_MAXPAY": str(maxpay), "GW_FORK": "1", "GW_COVER_TAIL": "3"}
+    e.update(env)
+    return e1e2(R, "CoreMC.tla", cfg, tag, core_canon(mods, maxpay), exe, e, D, budget, walks, L, seed, workers=workers, timeout=timeout)
+
+
+@check("C01")
+def c01(prop, tier, seed):
+    R = Result(prop, tier, seed)
+    exe = build_core()
+    quick = tier == "quick"
+    core_run(R, exe, "Core_mc_life.cfg", ["A", "B"], {"VP_HOOKS": "A:esx,B:x", "VP_CAP": "2"}, 5 if quick else 7,
+             150000 if quick else 5000000, 2000 if quick else 100000, 40, seed)
+    R.rule = "programs = paths of the dumped TLC graph of Core.tla (lifecycle focus) completed to a clean state"
+    return R.finish()
